@@ -35,8 +35,8 @@ PROPS = {
                 not_covered='generated messages; repeated/packed/map/message/group/string/bytes codecs are not yet under a harness'),
     'C06': dict(verus=['pbgen'], kani=K_PB + ['bnd_pb_merge_repeated_packed'], assumptions=A_COMMON[:1] + ['format! on error paths is stubbed in the Kani harnesses'],
                 not_covered='generated messages: only the two match tables that select the codec per scalar type (lower_ty, ty_module) are covered, as verbatim fragments; repeated/map/oneof positions of the generator and map entry layout are not covered'),
-    'C07': dict(verus=['skip', 'compact_skip'], kani=[], assumptions=A_COMMON,
-                not_covered='the contract proved for the recursive skipper is: depth 0 => Err, termination by depth, reported count == bytes consumed, exact size for every fixed-width type and for binary, Void/Stop rejected; element-by-element exactness of nested containers against a value grammar is not proved; async skipper and the iterative unchecked skipper are not under contract'),
+    'C07': dict(verus=['skip', 'binary', 'binary_le', 'compact_skip'], kani=[], assumptions=A_COMMON,
+                not_covered='decided: the recursive default skipper, against a recursive grammar of binary-protocol values (bskip_val: structs, lists, sets, maps nested to the depth limit): Ok(n) <=> the input starts with a well-formed value of that type occupying n bytes, which are exactly the bytes consumed; depth 0 => Err; termination by depth; and the refinement obligation that TBinaryProtocol<&mut Bytes> (both byte orders) implements the reader contract the skipper is verified against. Not decided: the async skipper, the iterative unchecked skipper; the compact reader is known finding G4'),
     'C09': dict(verus=THRIFT_UNITS + ['skip', 'async_binary', 'async_binary_le', 'async_compact'], kani=['a3_varint_decode_total', 'rwext_read_i16', 'rwext_read_i32', 'rwext_read_i64', 'rwext_read_u64'], assumptions=A_COMMON,
                 not_covered=NOT_GEN + '; sync read_string/read_to_string (vec! allocation) not yet under contract; async skipper not under contract'),
     'C10': dict(verus=['prost'], kani=['pb_varint_decode_total', 'pb_varint_roundtrip', 'pb_varint_chain'], assumptions=A_COMMON[:1] + ['decode_varint_slice (unsafe, unrolled) enters Verus through its documented safety contract; Kani pb_varint_decode_total proves it on the real code', 'derive(Clone) of DecodeContext replaced by its field-wise expansion; core::cmp::min redirected to a usize wrapper'],
